@@ -6,6 +6,7 @@ import tables
 
 CONFIGS = ['prod']
 EXPLANATION = (
+    'V6: the state codec adds nothing of its own — OrSWotSet::from_bytes returns exactly what the validating deserialiser produced (nothing is called on it, no field rewritten; a refusal is an error) and as_bytes hands the set as it is to the serialiser. '
     'Decided clauses: V1 who-may-call — outside the RPC frame layer no workspace body calls an unchecked rkyv accessor (ceiling 0; the '
     'matcher is proven live on every run by the one guarded cast inside datacake-rpc), and the repair client decodes the peer\'s state '
     'bytes, which derive from the RPC reply, through a VALIDATING entry point whose failure becomes an error status; V2 the type (const '
@@ -22,6 +23,8 @@ OS = 'datacake_crdt::orswot::OrSWotSet'
 
 def check(ctx):
     facts = ctx.facts('prod')
+    import codec_abs
+    codec_abs.check_state_codec(ctx, facts, 'C19.V6')
     # ---- V1 -------------------------------------------------------------------
     inside = outside = 0
     for b in facts.bodies.values():
